@@ -173,6 +173,8 @@ type scen struct {
 	Name     string `json:"name"`
 	ActiveMs int    `json:"active_ms"`
 	InactMs  int    `json:"inactive_ms"`
+	// RecordDuring: while flow 0's export callback blocks, another goroutine sends a record for flow 0
+	RecordDuring bool `json:"record_during,omitempty"`
 }
 
 func runSlow(sc scen) *ev.Failure {
@@ -191,15 +193,33 @@ func runSlow(sc scen) *ev.Failure {
 	}
 	time.Sleep(time.Until(t0.Add(450 * time.Millisecond)))
 	var delivered []string
+	senderDone := make(chan error, 1)
+	sender := false
 	err := ap.ForAllExpiredFlowRecordsDo(func(k intermediate.FlowKey, r *intermediate.AggregationFlowRecord) error {
 		delivered = append(delivered, k.SourceAddress)
 		if k == fl[0].Key() {
+			if sc.RecordDuring && !sender {
+				// another goroutine (a worker) takes in a record for this very flow while its export
+				// is in progress; it may have to wait for the scan, and must then be applied normally
+				sender = true
+				go func() { senderDone <- rc(0) }()
+			}
 			time.Sleep(300 * time.Millisecond) // flow 1's deadline (t0+600ms) passes here
 		}
 		return nil
 	})
 	if err != nil {
 		return ev.Failf("%s: scan: %v", sc.Name, err)
+	}
+	if sender {
+		select {
+		case err := <-senderDone:
+			if err != nil {
+				return ev.Failf("%s: record for flow 0 sent during its export callback: %v", sc.Name, err)
+			}
+		case <-time.After(10 * time.Second):
+			return ev.Failf("%s: a record for flow 0 sent during its export callback was not taken in within 10 s of the scan's end", sc.Name)
+		}
 	}
 	if d := structural(ap); d != "" {
 		return ev.Failf("%s: after a scan whose callback for flow 0 took 300 ms (callbacks for %v): %s", sc.Name, delivered, d)
@@ -226,7 +246,8 @@ func runSlow(sc scen) *ev.Failure {
 // a held flow, and a later scan after all deadlines delivers every flow that is still held. The
 // invariants do not depend on timing (no false alarm under load); only the sensitivity does.
 func TestC06SlowCallback(t *testing.T) {
-	scens := []scen{{"active_deadline_falls_into_the_scan", 400, 60000}, {"inactive_deadline_falls_into_the_scan", 60000, 400}}
+	scens := []scen{{Name: "active_deadline_falls_into_the_scan", ActiveMs: 400, InactMs: 60000}, {Name: "inactive_deadline_falls_into_the_scan", ActiveMs: 60000, InactMs: 400},
+		{Name: "record_for_the_flow_during_its_inactive_export", ActiveMs: 60000, InactMs: 400, RecordDuring: true}, {Name: "record_for_the_flow_during_its_active_export", ActiveMs: 400, InactMs: 60000, RecordDuring: true}}
 	fails := make([]*ev.Failure, len(scens))
 	var wg sync.WaitGroup
 	for si, sc := range scens {
